@@ -462,7 +462,7 @@ theorem full_matches_source (cfg : Cfg) (B : Batch) :
 
 /-- **nofit_matches_source** — the model's `Batch.nofit` is the refusal condition of `(*writeBatch).add` -/
 theorem nofit_matches_source (cfg : Cfg) (B : Batch) (size : Nat) :
-    Gen.batchNoFit B.msgs.length B.bytes size cfg.batchBytes = B.nofit cfg size := by
+    Gen.batchNoFit B.msgs.length B.bytes size cfg.batchSize cfg.batchBytes = B.nofit cfg size := by
   simp [Gen.batchNoFit, Batch.nofit]
 
 /-- **validation_matches_source** — `allFit` is the negation of WriteMessages' `messageTooLarge` condition for every message -/
